@@ -55,6 +55,30 @@ pub fn run(id: &str, tier: Tier) -> i32 {
 /// Re-runs one recorded case. Exit 1 + VIOLATION line if it still violates, 0 if it now holds.
 pub fn replay(id: &str, j: &J) -> i32 {
     let case = j.get("case").cloned().unwrap_or(J::Null);
+    let res = replay_case(id, &case);
+    match res {
+        None => {
+            eprintln!("no replay support for this case: {}", case.to_string());
+            2
+        }
+        Some(v) if v.is_empty() => {
+            println!("replay: property {id} holds on this case");
+            0
+        }
+        Some(v) => {
+            for w in &v {
+                println!("replay: {w}");
+            }
+            println!("VIOLATION property={id} replay=(replayed case)");
+            1
+        }
+    }
+}
+
+/// Re-executes the case of a replay record without the explorer: `Some(violations)` (empty = the
+/// property holds on this case now), or `None` when the case kind has no stand-alone replay.
+pub fn replay_case(id: &str, case: &J) -> Option<Vec<String>> {
+    let case = case.clone();
     let res: Option<Vec<String>> = match id {
         "C01" => c01::replay(&case),
         "C02" => c02::replay(&case),
@@ -77,21 +101,5 @@ pub fn replay(id: &str, j: &J) -> i32 {
         "C19" => c19::replay(&case),
         _ => None,
     };
-    match res {
-        None => {
-            eprintln!("no replay support for this case: {}", case.to_string());
-            2
-        }
-        Some(v) if v.is_empty() => {
-            println!("replay: property {id} holds on this case");
-            0
-        }
-        Some(v) => {
-            for w in &v {
-                println!("replay: {w}");
-            }
-            println!("VIOLATION property={id} replay=(replayed case)");
-            1
-        }
-    }
+    res
 }
